@@ -661,7 +661,7 @@ def run(chk):
 
     for i, c in enumerate(cases):
         # quick tier: the exhaustive operator-pair families go to the model one in three (all of them to the implementation)
-        add_model(c[4], impl[i], thorough or terms[c[0]][1] not in ("pair", "opfn") or i % 3 == 0)
+        add_model(c[4], impl[i], thorough or terms[c[0]][1] not in ("pair", "opfn") or i % 5 == 0)
 
     # ---------------------------------------------------------------- malformed inputs: must be rejected
     rej = []   # (text, lexemes, kind)
@@ -815,6 +815,27 @@ def run(chk):
     chk.extra["model_cases"] = len(mcases)
     chk.extra["model_disagreements"] = len(disagreements)
 
+    # ---------------------------------------------------------------- side condition of C09_spaced_layout_insensitive_partial
+    # on the generator's lexeme vocabulary: which tokens satisfy safe_after for blank / TAB / newline
+    vocab = sorted({l.text for c in cases for l in c[2]})
+    pth = os.path.join(chk.workdir, "c09_vocab.v")
+    with open(pth, "w") as f:
+        f.write("From YQ Require Import Base.Str Base.Regex Gen.LexRules Model.Lexer Proofs.LexerProofs.\nOpen Scope N_scope.\n")
+        f.write("Eval vm_compute in List.map (fun t => (match first_match lex_rules t with Some (_, []) => 1 | _ => 0 end, "
+                "if safe_after lex_rules t 32 then 1 else 0, if safe_after lex_rules t 9 then 1 else 0, if safe_after lex_rules t 10 then 1 else 0)) %s.\n"
+                % vlib.coq_list([vlib.coq_str(v) for v in vocab]))
+    rc, o = vlib.coq_eval_file(pth)
+    if rc != 0:
+        broken.append("vocabulary side-condition evaluation failed: " + o[-400:])
+    else:
+        vals = vlib.parse_coq_value(o)
+        not_single = [v for v, x in zip(vocab, vals) if x[0] != 1]
+        unsafe = {v: [n for n, b in zip(("blank", "TAB", "newline"), x[1:]) if b != 1] for v, x in zip(vocab, vals) if x[0] == 1 and sum(x[1:]) != 3}
+        chk.extra["lexeme_side_condition"] = {"lexemes": len(vocab), "single_token_and_safe_for_all_layout": len(vocab) - len(not_single) - len(unsafe),
+                                              "not_a_single_token": not_single[:20], "safe_after_fails": {k: unsafe[k] for k in list(unsafe)[:40]}}
+        if not_single:
+            broken.append("generator lexemes that the model does not lex as one token: %r" % not_single[:5])
+    T["vocab"] = round(time.time() - chk.t0, 1)
     # ---------------------------------------------------------------- evaluation of both spellings
     ereqs, emeta = [], []
     n_eval = 4000 if thorough else 300
